@@ -122,18 +122,20 @@ def scan_order():
             t = node.test
             ok = (len(t.ops) == 1 and isinstance(t.ops[0], ast.Eq) and isinstance(t.comparators[0], ast.Attribute)
                   and isinstance(t.comparators[0].value, ast.Name) and t.comparators[0].value.id == 'Units'
-                  and len(node.body) == 1 and isinstance(node.body[0], ast.Assign) and isinstance(node.body[0].value, ast.Name)
+                  and len(node.body) == 1 and isinstance(node.body[0], ast.Assign)
+                  and (isinstance(node.body[0].value, ast.Name) or
+                       (isinstance(node.body[0].value, ast.Constant) and node.body[0].value.value is None))
                   and node.body[0].targets[0].id == 'MyEnum')
             if not ok:
                 raise RuntimeError('LookupUnits: unrecognised branch ' + ast.dump(node.test)[:200])
             ut = t.comparators[0].attr
             if ut not in mapping:      # an elif chain: the first test that matches wins
-                mapping[ut] = node.body[0].value.id
+                mapping[ut] = getattr(node.body[0].value, 'id', None)
     if len(mapping) < 20:
         raise RuntimeError('LookupUnits: unit-type chain not recognised')
     out = []
     for ut in U.Units:
-        if ut.name in mapping:
+        if mapping.get(ut.name) is not None:
             E = getattr(U, mapping[ut.name])
             out.append((mapping[ut.name], ut.name in CURRENCY_TYPES, [str(m.value) for m in E]))
     return out
@@ -219,7 +221,11 @@ def collect():
     objs = discover_objects()
     params = scalar_params(objs)
     outs = output_params(objs)
-    scan = scan_order()
+    scan_error = None
+    try:
+        scan = scan_order()
+    except Exception as e:       # the Coq side is fail-closed (generator raises); the python search can still judge the reader
+        scan, scan_error = [], f'{type(e).__name__}: {e}'
     texts = set(EXTRA_UNITS)
     for _, _, vals in scan:
         texts.update(vals)
@@ -235,7 +241,7 @@ def collect():
         h = t.split('/')[0]
         heads.add(h[1:])
         heads.add(h)
-    return {'objs': objs, 'params': params, 'outs': outs, 'scan': scan, 'pint': pm, 'sym': sym,
+    return {'scan_error': scan_error, 'objs': objs, 'params': params, 'outs': outs, 'scan': scan, 'pint': pm, 'sym': sym,
             'cc': cc_table(sorted(heads)), 'texts': sorted(texts), 'canon': sorted(canon)}
 
 
